@@ -10,6 +10,7 @@ from .values import (V, VInt, VBool, VReal, VStr, VNone, VRef, VObj, VOpt,
                      fresh_name, fresh_value, to_obj_term, const_id,
                      is_nullable)
 from .source import assigned_names, loops_of
+from .state import Event, QHyp
 
 
 class StmtMixin:
@@ -678,20 +679,104 @@ class StmtMixin:
         for label, expr, prop in inv.invs:
             g = self.spec_eval(expr, st, {}, old=ctl.old if ctl else None, entry=entry)
             self.prove(st, g, f"{base}/establish/{label}", prop=self.prop_of(prop), kind="loop")
-        # ---- havoc what the body may change (discovered by a dry run)
+        # ---- havoc what the body may change: the write set is discovered by
+        # running the iteration; a run is kept only if it wrote nothing that
+        # had not been havocked (otherwise it is redone with the larger set)
         body_stmts = list(node.body)
         targets = assigned_names(body_stmts)
         if kind == "for":
-            targets |= assigned_names([ast.Expr(value=node.target)]) | {n.id for n in ast.walk(node.target) if isinstance(n, ast.Name)}
-        written = self.discover_writes(node, st, inv, kind, iterable, targets, idx_name, seen_name, entry)
-        hav = st    # consumed
-        self.apply_havoc(hav, written, targets, entry)
-        if kind == "for":
-            self.loop_havoc_ghost(hav, iterable, idx_name, seen_name)
-        hav.log_opaque |= written["tags"]
-        hav.log.append(Event(f"loop:{short}#{inv.loop}", []))
-        for label, expr, prop in inv.invs:
-            hav.assume(self.spec_eval(expr, hav, {}, old=ctl.old if ctl else None, entry=entry))
+            targets |= {n.id for n in ast.walk(node.target) if isinstance(n, ast.Name)}
+        written = {"heap": set(), "ghost": set(), "globs": set(), "tags": set(), "locs": set()}
+        for attempt in range(6):
+            saved_results = self.results
+            self.results = []
+            hav = st.clone()
+            self.apply_havoc(hav, written, targets - set(inv.locals_), entry)
+            if kind == "for":
+                self.loop_havoc_ghost(hav, iterable, idx_name, seen_name)
+            hav.log_opaque |= written["tags"]
+            hav.log.append(Event(f"loop:{short}#{inv.loop}", []))
+            havs = [hav]
+            for lname, LT in inv.locals_.items():
+                nxt = []
+                for h in havs:
+                    for h2, v in self.fresh_of_type(h, LT, f"hv_{lname}"):
+                        h2.frame.vars[lname] = v
+                        nxt.append(h2)
+                havs = nxt
+            outs = []
+            grew = False
+            for hav in havs:
+                for label, expr, prop in inv.invs:
+                    hav.assume(self.spec_eval(expr, hav, {}, old=ctl.old if ctl else None, entry=entry, mode="hyp"))
+                if not self.feasible(hav):
+                    continue
+                snap = (dict(hav.heap), dict(hav.ghost), dict(hav.globs),
+                        {k: len(o.data) for k, o in hav.objs.items()}, len(hav.log))
+                finals = []
+                outs += self.run_loop_from(node, hav, inv, kind, iterable, idx_name, seen_name, entry, base, finals)
+                if self.observe_writes(finals, snap, written):
+                    grew = True
+            if not grew:
+                saved_results.extend(self.results)
+                self.results = saved_results
+                if written["locs"]:
+                    raise EngineError(f"loop {inv.loop} of {inv.key} grows a concrete list; declare it as a heap list")
+                return outs
+            self.results = saved_results
+        raise EngineError(f"loop {inv.loop} of {inv.key}: write set did not stabilise")
+
+    def observe_writes(self, finals, snap, written):
+        base_heap, base_ghost, base_globs, base_objs, nlog = snap
+        grew = False
+        from .state import initial_array
+        for s2 in finals:
+            for k, arrs in s2.heap.items():
+                if k[0] == "<obj>" or k in written["heap"]:
+                    continue
+                b = base_heap.get(k)
+                if b is None:
+                    b = tuple(initial_array(k[0], k[1], i_, a_.sort().range()) for i_, a_ in enumerate(arrs))
+                if any(not x.eq(y) for x, y in zip(arrs, b)):
+                    written["heap"].add(k)
+                    grew = True
+            for k, t in s2.ghost.items():
+                if k in written["ghost"]:
+                    continue
+                b = base_ghost.get(k)
+                if b is None:
+                    b = z3.Const(f"G0!{k}", self.schema.ghosts[k].sort)
+                if not t.eq(b):
+                    written["ghost"].add(k)
+                    grew = True
+            for k, v in s2.globs.items():
+                if k in written["globs"]:
+                    continue
+                b = base_globs.get(k)
+                if b is not None and b is not v and not self._same_value(b, v):
+                    written["globs"].add(k)
+                    grew = True
+            for k, o2 in s2.objs.items():
+                b = base_objs.get(k)
+                if b is not None and b != len(o2.data) and k not in written["locs"]:
+                    written["locs"].add(k)
+                    grew = True
+            for ev in s2.log[nlog:]:
+                if ev.tag not in written["tags"]:
+                    written["tags"].add(ev.tag)
+                    grew = True
+        return grew
+
+    def _same_value(self, a, b):
+        ta = getattr(a, "t", None)
+        tb = getattr(b, "t", None)
+        if ta is not None and tb is not None and type(a) is type(b):
+            return ta.eq(tb)
+        return isinstance(a, VNone) and isinstance(b, VNone)
+
+    def run_loop_from(self, node, hav, inv, kind, iterable, idx_name, seen_name, entry, base, finals):
+        ctl = self.ctl
+        body_stmts = list(node.body)
         outs = []
         # ---- one arbitrary iteration
         it_state = hav.clone()
@@ -728,16 +813,26 @@ class StmtMixin:
             exits = self.loop_done(exit_state, iterable, idx_name, seen_name)
         variant0 = None
         for s in iter_starts:
+            iter_log_start = len(s.log)
             if inv.decreases:
                 variant0 = self.spec_value(inv.decreases, s, {}, old=ctl.old if ctl else None, entry=entry)
             for o in self.exec_block(body_stmts, s):
                 k, s2, v = o
+                finals.append(s2)
                 if k in ("next", "cont"):
                     if kind == "for":
                         self.loop_advance(s2, iterable, idx_name, seen_name)
                     for label, expr, prop in inv.invs:
                         g = self.spec_eval(expr, s2, {}, old=ctl.old if ctl else None, entry=entry)
                         self.prove(s2, g, f"{base}/preserve/{label}", prop=self.prop_of(prop), kind="loop")
+                    for label, expr, prop in inv.iter_posts:
+                        saved_start = getattr(self.ctl, "log_start", 0)
+                        self.ctl.log_start = iter_log_start
+                        try:
+                            g = self.spec_eval(expr, s2, {}, old=ctl.old if ctl else None, entry=entry)
+                        finally:
+                            self.ctl.log_start = saved_start
+                        self.prove(s2, g, f"{base}/iteration/{label}", prop=self.prop_of(prop), kind="loop")
                     if inv.decreases:
                         v1 = self.spec_value(inv.decreases, s2, {}, old=ctl.old if ctl else None, entry=entry)
                         g = self.variant_decreases(variant0, v1)
@@ -769,81 +864,6 @@ class StmtMixin:
         if isinstance(v, VReal):
             return v.t
         return self._int(v)
-
-    # ---- which heap components / ghosts / globals does the body write?
-    def discover_writes(self, node, st, inv, kind, iterable, targets, idx_name, seen_name, entry):
-        written = {"heap": set(), "ghost": set(), "globs": set(), "tags": set(), "locs": set()}
-        ctl = self.ctl
-        for _round in range(4):
-            probe = st.clone()
-            self.apply_havoc(probe, written, targets, entry)
-            if kind == "for":
-                self.loop_havoc_ghost(probe, iterable, idx_name, seen_name)
-            for label, expr, prop in inv.invs:
-                probe.assume(self.spec_eval(expr, probe, {}, old=ctl.old if ctl else None, entry=entry))
-            base_heap = dict(probe.heap)
-            base_ghost = dict(probe.ghost)
-            base_globs = dict(probe.globs)
-            base_objs = {k: o.clone() for k, o in probe.objs.items()}
-            nlog = len(probe.log)
-            saved_results = self.results
-            self.results = []
-            saved_hooks = self.user_call_hooks
-            self.user_call_hooks = []
-            try:
-                starts = []
-                if kind == "while":
-                    for r in self.ev(node.test, probe):
-                        if r[0] == "val":
-                            for b, s in self.branch(r[1], self.truth(r[2], r[1])):
-                                if b:
-                                    starts.append(s)
-                else:
-                    for s, item in self.loop_next(probe, iterable, idx_name, seen_name):
-                        for a in self.assign_target(node.target, item, s):
-                            if a[0] == "next":
-                                starts.append(a[1])
-                finals = []
-                for s in starts:
-                    finals += self.exec_block(list(node.body), s)
-            finally:
-                self.results = saved_results
-                self.user_call_hooks = saved_hooks
-            grew = False
-            for o in finals:
-                s2 = o[1]
-                for k, arrs in s2.heap.items():
-                    b = base_heap.get(k)
-                    if b is None or any(not x.eq(y) for x, y in zip(arrs, b)):
-                        if k not in written["heap"]:
-                            written["heap"].add(k)
-                            grew = True
-                for k, t in s2.ghost.items():
-                    b = base_ghost.get(k)
-                    if b is None or not t.eq(b):
-                        if k not in written["ghost"]:
-                            written["ghost"].add(k)
-                            grew = True
-                for k, v in s2.globs.items():
-                    b = base_globs.get(k)
-                    if b is not v:
-                        if k not in written["globs"]:
-                            written["globs"].add(k)
-                            grew = True
-                for k, o2 in s2.objs.items():
-                    b = base_objs.get(k)
-                    if b is not None and (len(b.data) != len(o2.data)):
-                        if k not in written["locs"]:
-                            written["locs"].add(k)
-                            grew = True
-                for ev in s2.log[nlog:]:
-                    if ev.tag not in written["tags"]:
-                        written["tags"].add(ev.tag)
-            if not grew:
-                break
-        if written["locs"]:
-            raise EngineError(f"loop {inv.loop} of {inv.key} grows a concrete list; declare it as a heap list")
-        return written
 
     def apply_havoc(self, st, written, targets, entry):
         for k in written["heap"]:
